@@ -70,6 +70,8 @@ type World struct {
 	SPk           []byte // stranger standard pkScript
 	SHash         []byte
 	S2Pk          []byte // second stranger script (double-spend destination)
+	S3Pk          []byte // third stranger script: funds the foreign input of jointly funded spends ("sj")
+	S3Hash        []byte
 	led           *Ledger
 	ledTip        wire.Hash
 	refC          *enum.RefWallet
@@ -161,6 +163,8 @@ func New(dir string, opt Options) (*World, error) {
 	w.SHash = fixedHash(0x51)
 	w.SPk = stdPk(w.SHash)
 	w.S2Pk = stdPk(fixedHash(0x52))
+	w.S3Hash = fixedHash(0x53)
+	w.S3Pk = stdPk(w.S3Hash)
 	na := 2
 	if opt.NoAddrs {
 		na = 0
@@ -249,6 +253,7 @@ func (w *World) strangerCoinbase(height uint64) *wire.MsgTx {
 	for k := 1; k < strangerCB; k++ {
 		tx.AddTxOut(&wire.TxOut{Value: 10 * Mass, PkScript: w.SPk})
 	}
+	tx.AddTxOut(&wire.TxOut{Value: 10 * Mass, PkScript: w.S3Pk})
 	return tx
 }
 
